@@ -122,23 +122,24 @@ def recurrence_block(args):
 
 
 class IsoM:
-    def __init__(self, eng):
+    def __init__(self, eng, tag=''):
         self.eng = eng
-        self.temperature = eng.real('T', positive=True)
+        self.temperature = eng.real('T' + tag, positive=True)
         self.calls = []
         outer = self
+        self.M, self.rho, self.gamma = eng.real('M' + tag, positive=True), eng.real('rho' + tag, positive=True), eng.real('gamma' + tag, positive=True)
 
         class A:
             def molar_mass(s):
-                return eng.real('M', positive=True)
+                return outer.M
 
             def liquid_density(s, T):
                 outer.calls.append(('liquid_density', T))
-                return eng.real('rho', positive=True)
+                return outer.rho
 
             def surface_tension(s, T):
                 outer.calls.append(('surface_tension', T))
-                return eng.real('gamma', positive=True)
+                return outer.gamma
         self.adsorbate = A()
 
 
@@ -199,6 +200,62 @@ def driver_block(args):
     return collect(eng, run, base, cfg)
 
 
+def history_block(args):
+    """The Kelvin model a calculation uses is built from *its* isotherm, branch and pore geometry -- whatever was calculated
+    before in the same process (two calls in one path, independent symbols; the named Kelvin model is a recording stand-in)."""
+    method, first, second = args
+    st = _prep()
+    PM, MK, E = st['PM'], st['MK'], st['E']
+    base = f"{P}/psd_meso.psd_mesoporous"
+    cfg = f"model={method}|{second[0]}:{second[1]}|after:{first[0]}:{first[1]}"
+    eng = sx.Engine(max_paths=4000, div0='assume')
+    table = {('ads', 'slit'): 'hemicylindrical', ('ads', 'cylinder'): 'cylindrical', ('des', 'slit'): 'hemicylindrical', ('des', 'cylinder'): 'hemispherical',
+             ('ads', 'sphere'): 'hemispherical', ('des', 'sphere'): 'hemispherical'}
+
+    def run():
+        n = 3
+        real_models = dict(MK._KELVIN_MODELS)
+        calls = []
+
+        def rec_kelvin(parr, **kw):
+            calls.append(kw)
+            return _arr([eng.real(f'rK{len(calls)}_{i}', positive=True) for i in range(len(parr))])
+        MK._KELVIN_MODELS['Kelvin'] = rec_kelvin
+        try:
+            isos = []
+            outs = []
+            for tag, (branch, geom) in (('a', first), ('b', second)):
+                ps = [eng.real(f'p{tag}{i}', positive=True) for i in range(n)]
+                Vs = [eng.real(f'V{tag}{i}', positive=True) for i in range(n)]
+                for i in range(1, n):
+                    eng.assume(ps[i] > ps[i - 1])
+                    eng.assume(Vs[i] >= Vs[i - 1])
+                eng.assume(ps[-1] < 1)
+                iso = IsoM(eng, tag)
+                isos.append(iso)
+                PM.get_iso_loading_and_pressure_ordered = lambda isotherm, br, lu, pu, ps=ps, Vs=Vs: (_arr(ps), _arr(Vs))
+                mark = len(calls)
+                try:
+                    PM.psd_mesoporous(iso, psd_model=method, pore_geometry=geom, branch=branch, thickness_model='zero thickness', kelvin_model='Kelvin')
+                    outs.append(('return', mark))
+                except E.CalculationError:
+                    outs.append(('CalculationError', mark))
+        finally:
+            MK._KELVIN_MODELS.clear()
+            MK._KELVIN_MODELS.update(real_models)
+        x = {'replay': {'kind': 'c16.history', 'model': method, 'first': list(first), 'second': list(second)}}
+        iso = isos[1]
+        mine = calls[outs[1][1]:]
+        eng.prove(f"{base}/history.kelvin_model_evaluated_in_second_calculation/{cfg}", outs[1][0] != 'return' or len(mine) > 0, extra=x)
+        want = {'meniscus_geometry': table[second], 'temperature': iso.temperature, 'liquid_density': iso.rho, 'adsorbate_molar_mass': iso.M,
+                'adsorbate_surface_tension': iso.gamma}
+        ok = all(set(kw) == set(want) and all((kw[k] is v) or (isinstance(v, str) and kw[k] == v) for k, v in want.items()) for kw in mine)
+        eng.prove(f"{base}/history.kelvin_model_built_from_this_isotherm_branch_and_geometry/{cfg}", ok,
+                  extra=dict(x, observed=str([{k: str(v) for k, v in kw.items()} for kw in mine[:1]])))
+
+    return collect(eng, run, base, cfg)
+
+
 def kelvin_block(_b):
     import sympy as sp
     from pgv.checks import models_common as MC
@@ -252,6 +309,12 @@ def kelvin_block(_b):
     km = MK.get_kelvin_model('Kelvin', meniscus_geometry='cylindrical', temperature=1, liquid_density=2, adsorbate_molar_mass=3, adsorbate_surface_tension=4)
     obs.append(static_ob(f"{P}/models_kelvin.get_kelvin_model/binds_arguments/Kelvin", km.func is MK.kelvin_radius and km.keywords == dict(
         meniscus_geometry='cylindrical', temperature=1, liquid_density=2, adsorbate_molar_mass=3, adsorbate_surface_tension=4), '', backend='eval'))
+    kms = [MK.get_kelvin_model(nm, meniscus_geometry=g_, temperature=10 + i, liquid_density=20 + i, adsorbate_molar_mass=30 + i, adsorbate_surface_tension=40 + i)
+           for i, (nm, g_) in enumerate((('Kelvin', 'cylindrical'), ('Kelvin', 'hemispherical'), ('Kelvin-KJS', 'cylindrical'), ('Kelvin', 'cylindrical')))]
+    ok = all(k.keywords == dict(meniscus_geometry=g_, temperature=10 + i, liquid_density=20 + i, adsorbate_molar_mass=30 + i, adsorbate_surface_tension=40 + i)
+             for i, (k, g_) in enumerate(zip(kms, ('cylindrical', 'hemispherical', 'cylindrical', 'cylindrical'))))
+    obs.append(static_ob(f"{P}/models_kelvin.get_kelvin_model/binds_arguments/every_call_its_own", ok, str([k.keywords for k in kms])[:300], backend='eval',
+                         replay={'kind': 'c16.history', 'model': 'BJH', 'first': ['des', 'cylinder'], 'second': ['ads', 'cylinder']}))
     try:
         MK.get_kelvin_model('nope')
         out = 'return'
@@ -263,7 +326,7 @@ def kelvin_block(_b):
 
 def _dispatch(job):
     kind, arg = job
-    return {'rec': recurrence_block, 'drv': driver_block, 'kelvin': kelvin_block}[kind](arg)
+    return {'rec': recurrence_block, 'drv': driver_block, 'kelvin': kelvin_block, 'hist': history_block}[kind](arg)
 
 
 def run(rep):
@@ -286,6 +349,12 @@ def run(rep):
         for lim in ('both', 'lo', 'hi'):
             jobs.append(('drv', (m, 4, lim)))
     jobs.append(('kelvin', None))
+    for m in ('pygaps-DH', 'BJH', 'DH'):
+        for first, second in ((('ads', 'cylinder'), ('des', 'cylinder')), (('des', 'cylinder'), ('ads', 'cylinder')), (('des', 'slit'), ('des', 'cylinder')),
+                              (('des', 'cylinder'), ('des', 'cylinder'))):
+            if m != 'pygaps-DH' and 'slit' in (first[1], second[1]):
+                continue
+            jobs.append(('hist', (m, first, second)))
     obs, crashes = par.pmap(_dispatch, jobs)
     rep.extend(obs)
     if crashes:
